@@ -78,7 +78,17 @@ pub fn replay_is_deterministic(input: &Input, prefix: &[(String, usize)]) -> Res
     if t1 != t2 {
         return Err(format!("traces differ: {t1:?} vs {t2:?}"));
     }
-    if o1.to_json() != o2.to_json() {
+    // Compare as multisets: the order of the result map's files is not an observable.
+    let normal = |o: &Outcome| {
+        let mut v = o.to_json();
+        for key in ["blocks", "diags"] {
+            if let Some(list) = v.get_mut(key).and_then(|l| l.as_array_mut()) {
+                list.sort_by_key(|e| e.to_string());
+            }
+        }
+        v
+    };
+    if normal(&o1) != normal(&o2) {
         return Err(format!("outcomes differ: {} vs {}", o1.to_json(), o2.to_json()));
     }
     Ok(())
